@@ -76,11 +76,11 @@ op_data_raw = [
     OperatorData("greater", 50, assoc=LEFT, ascii_op=">"),
     OperatorData("zero", 0, arity=CONST, ascii_op="0"),
     OperatorData("append", 65, assoc=RIGHT, ascii_op="@"),
-    OperatorData("cons", 65, assoc=RIGHT, ascii_op="#"),
+    OperatorData("cons", 64, assoc=RIGHT, ascii_op="#"),
     OperatorData("member", 50, assoc=LEFT, ascii_op="Mem", unicode_op="∈"),
     OperatorData("subset", 50, assoc=LEFT, ascii_op="Sub", unicode_op="⊆"),
     OperatorData("inter", 70, assoc=LEFT, ascii_op="Int", unicode_op="∩"),
-    OperatorData("union", 65, assoc=LEFT, ascii_op="Un", unicode_op="∪"),
+    OperatorData("union", 63, assoc=LEFT, ascii_op="Un", unicode_op="∪"),
     OperatorData("empty_set", 0, arity=CONST, ascii_op="{}", unicode_op="∅"),
     OperatorData("Union", 95, arity=UNARY, ascii_op="UN ", unicode_op="⋃"),
     OperatorData("Inter", 95, arity=UNARY, ascii_op="INT ", unicode_op="⋂"),
